@@ -568,6 +568,19 @@ func judge(c engine.Case) engine.Outcome {
 	// Clause 2: the unmodified tree serialises to the source's token sequence,
 	// and to exactly the formatter's bytes.
 	got := f.Bytes()
+	// What Bytes returned stays what it was whatever is serialised afterwards
+	// (this file again, another file): no storage shared between results.
+	saved := string(got)
+	otherFile, _ := hclwrite.ParseConfig([]byte("zz = [ 1,2 ]\nyy {\n}\n"), "other.hcl", hcl.InitialPos)
+	var otherBytes, again []byte
+	if otherFile != nil {
+		otherBytes = otherFile.Bytes()
+	}
+	again = f.Bytes()
+	if string(got) != saved || string(again) != saved || (otherFile != nil && string(otherBytes) != "zz = [1, 2]\nyy {\n}\n") ||
+		(len(got) > 0 && len(again) > 0 && &got[0] == &again[0]) || (len(got) > 0 && len(otherBytes) > 0 && &got[0] == &otherBytes[0]) {
+		return engine.Fail("c10.result-changed-by-later-call", "the bytes returned by File.Bytes() for %q changed after later Bytes calls (on the same file and on another file): first %q, now %q; second call %q; other file %q", src, saved, got, again, otherBytes)
+	}
 	want := hclwrite.Format(src)
 	gotToks, _, _ := cfgcorpus.Lex(got)
 	if td := cfgcorpus.DiffToks(srcToks, gotToks); td != nil {
